@@ -52,8 +52,11 @@ const c13SwissquotePerShareDividend = false
 
 var (
 	// `a #tag b` sorts after `a "quoted" b` but before `a 'quoted' b`
-	c13TextsAll    = []string{"abc", `a "quoted" b`, "semi;colon", "comma, x", "Zürich — ☕", "", "a #tag b"}
-	c13TextsLatin1 = []string{"abc", `a "quoted" b`, "semi;colon", "comma, x", "Zürich « é ¶", "", "a #tag b"}
+	// the two long texts consist of two-byte characters at even and at odd byte offsets:
+	// whatever byte length an importer might cut a text to, one of them is cut inside a
+	// character
+	c13TextsAll    = []string{"abc", `a "quoted" b`, "semi;colon", "comma, x", "Zürich — ☕", "", "a #tag b", strings.Repeat("ü", 200), "a" + strings.Repeat("ü", 200)}
+	c13TextsLatin1 = []string{"abc", `a "quoted" b`, "semi;colon", "comma, x", "Zürich « é ¶", "", "a #tag b", strings.Repeat("ü", 200), "a" + strings.Repeat("ü", 200)}
 )
 
 func c13TextClass(t string) (string, int) {
